@@ -468,6 +468,7 @@ func (e *Engine) oneOf(t types.Type) string {
 
 func (f *Frame) execRecv(in *ssa.UnOp, st *State) {
 	e := f.e
+	e.tick(st)
 	e.assumed["channel receives return arbitrary values (no channel-history reasoning)"] = true
 	if in.CommaOk {
 		tup := in.Type().(*types.Tuple)
@@ -485,6 +486,7 @@ func (f *Frame) execSend(in *ssa.Send, st *State) {
 
 func (f *Frame) execSelect(in *ssa.Select, st *State) {
 	e := f.e
+	e.tick(st)
 	e.assumed["select chooses any ready case nondeterministically"] = true
 	tup := in.Type().(*types.Tuple)
 	idx := e.havocVal(tup.At(0).Type(), "sel", st)
